@@ -17,7 +17,7 @@ def jobs(tier):
         job(M, "c07_table", "table/n2/all-props", dict(n=2, props="all", symbols=["C", "D", "Cl"]), max_seconds=ms),
         job(M, "c07_table", "table/n3/bonds", dict(n=3, props="none", symbols=["C"], bond_extra=True, permute_lines=False), max_seconds=ms),
         job(M, "c07_table", "table/n3/bonds-lineorder", dict(n=3, props="none", symbols=["C", "O"], bond_extra=False), max_seconds=ms),
-        job(M, "c07_table", "table/n3/star", dict(n=3, star=True, symbols=["C"], props="none"), max_seconds=ms),
+        *[j2 for j in split(job(M, "c07_table", "table/n3/star", dict(n=3, star=True, symbols=["C"], props="none"), max_seconds=ms), "star_extra", 3) for j2 in split(j, "src", 3)],
         job(M, "c07_layout", "layout/blank-runs", dict(mode="gap"), max_seconds=ms),
         job(M, "c07_file", "graph_from_file/tempfile", {}, max_seconds=ms),
         job(M, "c07_star_many", "table/star-with-many-endpoints", {}, max_seconds=ms),
